@@ -477,17 +477,34 @@ func c05TwoCharOps(c *Ctx, rule string) {
 		key := f.Name + "|two-char|" + a.Name()
 		var b string
 		consumes := false
-		for _, st := range cc.Body {
-			if as, ok := st.(*ast.AssignStmt); ok && len(as.Lhs) == 1 && strings.HasSuffix(exprKey(as.Lhs[0]), ".Type") {
-				if cst := f.namedConst(as.Rhs[0]); cst != nil {
-					b = cst.Name()
+		for _, st0 := range cc.Body {
+			ast.Inspect(st0, func(st ast.Node) bool {
+				switch st.(type) {
+				case *ast.FuncLit, *ast.CaseClause:
+					return false
 				}
-			}
-			if es, ok := st.(*ast.ExprStmt); ok {
-				if call, ok := es.X.(*ast.CallExpr); ok && f.CallIs(call, "sql.tokenScanner.Next") {
+				if as, ok := st.(*ast.AssignStmt); ok && len(as.Lhs) == 1 && len(as.Rhs) == 1 {
+					isType := false
+					if sel, ok := ast.Unparen(as.Lhs[0]).(*ast.SelectorExpr); ok {
+						if v := fieldVar(f, sel); v != nil && v.Name() == "Type" {
+							isType = true
+						}
+					}
+					if isType {
+						if cst := f.namedConst(as.Rhs[0]); cst != nil {
+							b = cst.Name()
+						}
+					}
+				}
+				if call, ok := st.(*ast.CallExpr); ok && f.CallIs(call, "sql.tokenScanner.Next") {
 					consumes = true
 				}
-			}
+				return true
+			})
+		}
+		if b == "" {
+			c.Undecided(rule, key, "the token type produced by this arm is not a direct store of a token constant")
+			return true
 		}
 		chv, _ := constant.Int64Val(constant.ToInt(ch))
 		want := tt.spelling[a.Name()] + string(rune(chv))
